@@ -22,16 +22,20 @@ Compose(h, i, t) == CASE h = "first" -> <<i>> \o t         \* the function runs 
                       [] h = "last"  -> Append(t, i)       \* the function gets the result of the next loader
                       [] h = "deleg" -> Append(t, i)       \* a provider that wraps provide_from_next()
 
-RECURSIVE Ref(_, _)
-Ref(r, from) ==
+\* mc = the checker classes that match the request:  {"exA", "predY"} for a request of origin A;  {"predY"} for a request
+\* whose type cannot be normalised (bare Optional / Union, an unresolvable forward reference): no exact-origin checker
+\* matches it ("exC" is the exact origin None, which such a request must not be confused with)
+RECURSIVE RefG(_, _, _)
+RefG(r, from, mc) ==
   IF from > Len(r) THEN [ok |-> FALSE, term |-> <<>>, log |-> <<>>]
   ELSE LET p == r[from] IN
-       IF ~Matches(p) THEN Ref(r, from + 1)
+       IF p.c \notin mc THEN RefG(r, from + 1, mc)
        ELSE IF p.h = "plain" THEN [ok |-> TRUE, term |-> <<from>>, log |-> <<from>>]
-       ELSE LET n == Ref(r, from + 1) IN
+       ELSE LET n == RefG(r, from + 1, mc) IN
             IF p.h = "decline" THEN [n EXCEPT !.log = <<from>> \o @]
             ELSE IF n.ok THEN [ok |-> TRUE, term |-> Compose(p.h, from, n.term), log |-> <<from>> \o n.log]
                  \* nested search failed: the provider declines and the outer search goes on (and fails the same way)
                  ELSE [ok |-> FALSE, term |-> <<>>, log |-> (<<from>> \o n.log) \o n.log]
+Ref(r, from) == RefG(r, from, {"exA", "predY"})
 
 =======================================================================================
